@@ -225,6 +225,10 @@ def _weave_states_in_region(
                     # weave vals with input states
                     after_for_state = _weave_states_in_region(op.body, inner_state, rewriter)
 
+                    # accelerators that are not set up in the loop but invalidated in its body are unknown afterwards
+                    for acc_name in [k for k in state if k not in updated_accelerators and k not in after_for_state]:
+                        del state[acc_name]
+
                     # get a list of all initial states of accelerators that were changed int the loop.
                     input_states: list[SSAValue] = [
                         state[acc_name] for acc_name in updated_accelerators if state[acc_name] not in op.operands
